@@ -1,0 +1,3 @@
+// Package verifhooks re-exports internal packages for the external
+// verification harness. It is empty unless built with the "verif" build tag.
+package verifhooks
